@@ -45,8 +45,8 @@ def hostile_query(draw) -> Dict[str, Any]:
 
 valid_query = st.fixed_dictionaries({'src': st.just('vquery'), 'what': st.sampled_from(['ptr', 'srv', 'addr', 'enum']),
                                      'qu': st.booleans(), 'tc': st.sampled_from([False, False, True])})
-valid_resp = st.fixed_dictionaries({'src': st.just('vresp'), 'inst': st.integers(0, 3), 'ttl': st.sampled_from([0, 120, 4500]),
-                                    'flush': st.booleans()})
+valid_resp = st.fixed_dictionaries({'src': st.just('vresp'), 'inst': st.integers(0, 3), 'ttl': st.sampled_from([0, 1, 120, 4500]),
+                                    'flush': st.booleans(), 'repeat': st.sampled_from([0, 0, 1, 2]), 'recase': st.booleans()})
 
 
 @st.composite
@@ -54,7 +54,8 @@ def item(draw) -> Dict[str, Any]:
     d = draw(st.one_of(c02.msg_case(True), c02.msg_case(True), c02.msg_case(False), c02.graph_case(), hostile_query(), hostile_query(),
                        valid_query, valid_resp,
                        st.builds(lambda n, s: {'src': 'rand', 'len': n, 'seed': s, 'hdr': 'sane'}, st.integers(0, 300), st.integers(0, 2**32))))
-    return {'d': d, 'gap': draw(st.sampled_from([0, 0, 1, 50, 500, 1100, 5000])), 'port': draw(st.sampled_from([5353, 5353, 40001, 1])),
+    # gaps include hours: timers armed by earlier datagrams (refresh schedules, purges, queues) must survive too
+    return {'d': d, 'gap': draw(st.sampled_from([0, 0, 1, 50, 500, 1100, 5000, 5000, 850000, 1130000, 3400000, 4600000])), 'port': draw(st.sampled_from([5353, 5353, 40001, 1])),
             'family': draw(st.sampled_from(['v4', 'v4', 'v6'])), 'sock': draw(st.integers(0, 2)), 'client': draw(st.integers(0, 2)),
             'oversize': draw(st.sampled_from([None, None, None, None, 8967, 9000, 20000, 70000]))}
 
@@ -84,6 +85,10 @@ def build(d: Dict[str, Any]) -> bytes:
         name = f'peer{d["inst"]}.{TYPE_B}'
         rrs = [rp.wire_rr_of_ident(('PTR', TYPE_B, name), d['ttl']),
                rp.wire_rr_of_ident(('SRV', name, 0, 0, 99, 'peerhost.local.'), min(d['ttl'], 120), flush=d['flush'])]
+        for k in range(d.get('repeat', 0)):        # legal but unusual: the same record listed again in one datagram
+            nm = name.upper() if d.get('recase') and k == 1 else name
+            rrs.append(rp.wire_rr_of_ident(('PTR', TYPE_B, nm), d['ttl'] if k == 0 else 4500))
+            rrs[-1]['rd']['target'] = wire.labels_of(nm)
         return wire.encode({'id': 0, 'flags': 0x8400, 'qd': [], 'an': rrs, 'ns': [], 'ar': []})
     return c02.materialise(d)
 
@@ -193,6 +198,8 @@ class Exec:
         await asyncio.sleep(0.01)
         self.canary['added'] = [e for e in lst.events[n_ev:] if e['kind'] == 'add' and e['name'].lower().startswith('canary-instance.')]
         await asyncio.sleep(11.0)
+        # everything armed by the stream has fired by now (refresh schedules run at 75-95 % of up to 4500 s)
+        await asyncio.sleep(4600.0)
         self.lookup_state = ('done', self.lookup.exception() if not self.lookup.cancelled() else 'cancelled') if self.lookup.done() else ('pending', None)
 
 
